@@ -25,7 +25,6 @@ Definition origin_of (q : treq) : option bool :=
   match rsvc q with
   | TMS | KML => Some false
   | Tiles => rorigin q
-  | WmtsRestFI => None
   | _ => Some true
   end.
 Definition dims_of (q : treq) : list (Z * Z) := if is_wmts (rsvc q) then rdims q else [].
